@@ -511,7 +511,7 @@ const char* ruleText(const std::string& p)
     if (p == "C16") return "a valid history over two domains and forests of several kinds (so forests hold nodes and compute tables are warm) with misuse calls spliced in: operands / result forests from another domain, set/relation, labeling and range-type mismatches for the operation catalogue, compute() with a result or operand edge attached to another forest, values outside the terminal range, zero divisors met at the last point of the recursion, exhausted iterators, bad variables, minterms of another domain, getElement on a non-index edge, edges of a destroyed forest; each must raise MEDDLY::error with a code documented for that class of misuse, after which every held edge is re-evaluated, every forest audited, no node may be under-counted, and valid operations continue; non-trivial = a misuse was rejected while >= 10 nodes were live; distinct = distinct program text";
     if (p == "C17") return "1-3 domains, forests of several kinds, operations that span forests (COPY, comparisons), then forest::destroy / domain::destroy / new forests / cleanup()+initialize() with other compute-table settings in random order with work continuing in the survivors: edges of destroyed forests must be detached (no forest, node 0) and raise errors when used, forest identifiers never repeat and retired ones resolve to null, double initialize / cleanup raise the documented errors; survivors are re-evaluated, audited, and exact reference counts and cache counts recounted after every step; non-trivial = a forest was destroyed while edges were attached and after operations that span forests; distinct = distinct program text";
     if (p == "C18") return "random request/recycle sequences (50-700 operations in quick, up to 6000 in thorough; sizes from the declared minimum up to 600 slots, 15 for free-lists; popular sizes for exact fits, neighbouring releases for coalescing, growth / shrink / total-release phases) driven directly into ORIGINAL_GRID, ARRAY_PLUS_GRID, HEAP_MANAGER, MALLOC_MANAGER (4-byte slots) and FREELISTS (4- and 8-byte slots) against a reference allocator model: granted >= requested, no overlap with any live chunk (addresses re-derived after every call), sentinel contents of every live chunk intact after every call, a live handle is never returned again, isValidHandle true for live handles; non-trivial = the sequence coalesced adjacent holes and reused the remainder of a split hole (as seen by the model); distinct = distinct generated sequence";
-    if (p == "C19") return "quick: boundary-stratified and random integers (incl. the range limits +-2^30, values just outside, powers of two up to 2^62) and float bit patterns (all exponents x edge mantissas, denormals, infinities, 300k random per worker), booleans, and a few values through live MT-int / MT-real / EV+ forests; thorough: exhaustive over all 2^31 terminal integers, the 2^33 integers just outside and all 2^32 float patterns; each value is encoded to a handle and decoded (reals: to the float with the last mantissa bit cleared, computed independently), zero/false must be the unique transparent handle, out-of-range integers must raise VALUE_OVERFLOW; non-trivial = |value| > 42 (not a value the test suite uses); distinct = distinct value";
+    if (p == "C19") return "quick: boundary-stratified and random integers (incl. the range limits +-2^30, values just outside, powers of two up to 2^62) and float bit patterns (all exponents x edge mantissas, denormals, infinities, 300k random per worker), booleans, and a few values through live MT-int / MT-real / EV+ forests; thorough: the same, plus exhaustive over all 2^31 terminal integers, the 2^25 integers just outside each limit and all 2^32 float patterns; each value is encoded to a handle and decoded (reals: to the float with the last mantissa bit cleared, computed independently), zero/false must be the unique transparent handle, out-of-range integers must raise VALUE_OVERFLOW; non-trivial = |value| > 42 (not a value the test suite uses); distinct = values counted per worker (the 16 workers draw different values; boundary values are repeated by every worker)";
     if (p == "C13") return "MT set/relation (bool/int/real) and EV+ set forests with a random scheduling heuristic (8) and swap method (2); 2-5 held edges sharing nodes, a second forest over the same domain, warm compute tables; reorderVariables() to a uniformly random permutation, more operations, optionally back to the default order; every held edge is re-evaluated against its table under the new order (evaluate + own expansion), the forest is audited, other forests' orders and edges must be unchanged; non-trivial = a non-identity reordering with >= 2 held edges; distinct = distinct program text";
     if (p == "C14") return "0-8 root edges (shared sub-graphs, terminal roots, repeated roots) of a forest of any kind and policy written with mdd_writer to an in-memory stream and read back into the same forest, into another forest of the same kind with other policies (already holding nodes), or into a forest created from the file; same number and order of roots, tables equal (tolerance for reals), identical edges when read into the writing forest, audit and exact reference recount of the receiving forest afterwards; non-trivial = a read of >= 2 roots including a terminal or repeated root; distinct = distinct program text";
     if (p == "C15") return "random boolean sets (incl. empty and full) in fully-/quasi-reduced forests converted to index sets; the result must map the members in lexicographic order to 0..n-1 and everything else to +infinity (evaluate + own expansion), getElement(i) must return member i for 0<=i<n and false for -1, n, n+5, and the cardinality stored in every node must equal the members below it; non-trivial = 2 <= n < |domain|; distinct = distinct program text";
